@@ -16,10 +16,16 @@ import (
 	"time"
 )
 
-const (
-	repo  = "/repo"
-	verif = "/verif"
-)
+// repo is the tree under test. VERIF_REPO overrides it (used to run the checks against a scratch
+// worktree carrying a deliberate property-breaking change; registered commands never set it).
+var repo = func() string {
+	if r := os.Getenv("VERIF_REPO"); r != "" {
+		return r
+	}
+	return "/repo"
+}()
+
+const verif = "/verif"
 
 type checkDef struct {
 	Harness    string // directory under /verif/h
@@ -246,6 +252,15 @@ func run(scratch string) int {
 }
 
 func execBin(bin string, args []string, scratch string) int {
+	// VERIF_OUT redirects evidence and replay files (runs against scratch trees must not touch /verif/evidence)
+	if out := os.Getenv("VERIF_OUT"); out != "" {
+		for i := range args {
+			if args[i] == "-verif" && i+1 < len(args) {
+				args[i+1] = out
+			}
+		}
+		os.Setenv("VERIF_KNOWN", filepath.Join(verif, "known_findings.jsonl"))
+	}
 	cmd := exec.Command(bin, args...)
 	cmd.Dir = verif
 	cmd.Stdout = os.Stdout
